@@ -158,8 +158,8 @@ namespace AIToolbox::Factored {
         // Pick shortest set of vectors to merge.
         const auto & toCount = ids_[std::min_element(std::begin(F), std::end(F)) - std::begin(F)];
         // Match all by merging all ids in all vectors.
-        size_t retval = toCount[0].size();;
-        for (size_t i = 1; i < ids_[0].size(); ++i)
+        size_t retval = toCount[0].size();
+        for (size_t i = 1; i < toCount.size(); ++i)
             retval += toCount[i].size();
 
         return retval;
@@ -333,7 +333,7 @@ namespace AIToolbox::Factored {
         // Match all by merging all ids in all vectors.
         std::vector<size_t> retval(reserve);
         auto it = std::copy(std::begin(toMerge[0]), std::end(toMerge[0]), std::begin(retval));
-        for (size_t i = 1; i < ids_[0].size(); ++i) {
+        for (size_t i = 1; i < toMerge.size(); ++i) {
             auto newIt = std::copy(std::begin(toMerge[i]), std::end(toMerge[i]), it);
             std::inplace_merge(std::begin(retval), it, newIt);
             it = newIt;
